@@ -82,6 +82,13 @@ def handle (op : String) (args : List String) : Option String :=
       -- the SOURCE TRANSLATION of `_parse_rfc_rrule` on one line (as `_parse_rfc` hands it over: upper-cased), printed like `rrs.parse`
       let s ← parseHexString? h
       some (Py.showR (fun a => Ops.RRuleStr.showParsed false (fun _ => none) (.rule a none false)) (Gen.rrsParseRule {} s.toList))
+  | "rrsgen.call", [o, h] => do
+      -- `rrs.parse` through the translated `_rrulestr.__call__`
+      let s ← parseHexString? h
+      let f := o.toList.map (· == '1')
+      let opts : RRuleStr.Opts := { unfold := f.getD 0 false, forceset := f.getD 1 false, compatible := f.getD 2 false,
+                                    ignoretz := f.getD 4 false, tzinfos := f.getD 5 false, cache := f.getD 6 false }
+      some (Py.showR (Ops.RRuleStr.showParsed (f.getD 3 false) (RRuleStr.tzidOf s.toList opts)) (Gen.rrsCall s.toList opts (f.getD 3 false)))
   | _, _ => none
 
 end Ops.RRuleStrGen
